@@ -49,7 +49,8 @@ let get f k = try List.assoc k f with Not_found -> failwith ("missing field " ^ 
 let get_or f k d = try List.assoc k f with Not_found -> d
 
 let parse_upd = function
-  | "unset" -> UUnset | "true" -> UTrue | "clean" -> UClean | _ -> UOther
+  | "unset" -> UUnset | "true" | "raw:true" -> UTrue | "clean" | "raw:clean" -> UClean
+  | "raw:" -> UUnset | _ -> UOther
 let parse_env f : env =
   { ci = (get f "ci" = "1"); upd = parse_upd (get f "upd"); colour = (get_or f "colour" "0" = "1") }
 let parse_api = function
